@@ -19,7 +19,8 @@ Init == l = 1 /\ cnt = [events |-> 0, nontrivial |-> 0, incon |-> 0]
 Next == /\ l <= Len(Trace)
         /\ LET e == Trace[l]
                p == Premise(e) IN
-           /\ (~p => PrintT(<<"INCON", l, "Premise">>))
+           /\ (~p /\ ~BuiltBreaks(e) => PrintT(<<"INCON", l, "Premise">>))
+           /\ (~p /\ BuiltBreaks(e) => PrintT(<<"VIOL", l, Prefix(e) \o ".PlaceholderAdmitsReplacedPart">>))
            /\ (p => \A r \in Failed(e) : PrintT(<<"VIOL", l, r>>))
            /\ cnt' = [cnt EXCEPT !.events = @ + 1, !.incon = @ + (IF p THEN 0 ELSE 1), !.nontrivial = @ + (IF p /\ Nontrivial(e) THEN 1 ELSE 0)]
         /\ l' = l + 1
